@@ -300,10 +300,18 @@ def leanchecker(modules):
 # ------------------------------------------------------------------------------------------------
 
 def load_known():
+    """known_findings.json (committed; never written at run time).  `findings/*.json` are the
+    per-family files builders work on before they are merged into it."""
+    res = []
     path = os.path.join(ROOT, "known_findings.json")
-    if not os.path.exists(path):
-        return []
-    return json.load(open(path))
+    if os.path.exists(path):
+        res.extend(json.load(open(path)))
+    fdir = os.path.join(ROOT, "findings")
+    if os.path.isdir(fdir):
+        for n in sorted(os.listdir(fdir)):
+            if n.endswith(".json"):
+                res.extend(json.load(open(os.path.join(fdir, n))))
+    return res
 
 
 def jsonable(x):
